@@ -187,7 +187,9 @@ void Response::toXml(QXmlStreamWriter *writer) const
 std::optional<Success> Success::fromDom(const QDomElement &el)
 {
     if (el.tagName() == u"success" && el.namespaceURI() == ns_sasl) {
-        return Success();
+        if (auto value = parseBase64(el.text())) {
+            return Success { *value };
+        }
     }
     return {};
 }
@@ -196,6 +198,9 @@ void Success::toXml(QXmlStreamWriter *writer) const
 {
     writer->writeStartElement(QSL65("success"));
     writer->writeDefaultNamespace(toString65(ns_sasl));
+    if (!value.isEmpty()) {
+        writer->writeCharacters(serializeBase64(value));
+    }
     writer->writeEndElement();
 }
 
@@ -1263,6 +1268,7 @@ std::optional<QByteArray> QXmppSaslClientScram::respond(const QByteArray &challe
         const QMap<char, QByteArray> input = parseGS2(challenge);
         m_step++;
         if (QByteArray::fromBase64(input.value('v')) == m_serverSignature) {
+            m_serverVerified = true;
             return QByteArray();
         }
         return {};
